@@ -33,6 +33,7 @@ class Down(object):
         self.nrcpt = 0
         self.acc = []
         self.trans = 0
+        self.marker = 0
         self.act('banner', 0)
 
     def fileno(self):
@@ -74,7 +75,7 @@ class Down(object):
             self.out += b'this is not a reply\r\n'
             self.ev.set()
             return 'malformed'
-        text = 'r%d %s' % (a, stage)
+        text = 'r%d %s' % (a, stage) + (' m%d' % self.marker if stage == 'eod' else '')
         if stage in ('ehlo',) and a == 250:
             lines = ['downstream'] + (['PIPELINING'] if self.pipelining else []) + ['8BITMIME', 'SMTPUTF8']
             self.out += ''.join('250%s%s\r\n' % ('-' if k < len(lines) - 1 else ' ', ln) for k, ln in enumerate(lines)).encode()
@@ -133,6 +134,9 @@ class Down(object):
                 self.mode = 'cmd'
                 self.drv.log(t='peer_content', conn=self.conn, n=len(body), trans=self.trans)
                 self.drv.bodies.append(body)
+                import re as _re
+                mm = _re.search(rb'X-Marker: m(\d+)', body)
+                self.marker = int(mm.group(1)) if mm else 0
                 if self.lmtp:
                     for j, ri in enumerate(list(self.acc)):
                         self.act('eod', ri)
@@ -187,13 +191,22 @@ class RelayRun(object):
         env.parse(b'Subject: req %d\r\nX-Marker: m%d\r\n\r\nbody of request %d\r\n' % (req, req, req))
         self.log(t='call', req=req, nrcpt=nrcpt)
 
+        import re as _re
+
+        def mark(msgs):
+            ms = set()
+            for m_ in msgs:
+                for x in _re.findall(r' m(\d+)', m_ or ''):
+                    ms.add(int(x))
+            return (sorted(ms) + [0])[0] if len(ms) <= 1 else -1
+
         def run():
             try:
                 res = self.relay.attempt(env, 0)
             except PermanentRelayError as e:
-                return self.log(t='ret', req=req, kind='raise', cls='P', per=[], code=int(e.reply.code), marker=0)
+                return self.log(t='ret', req=req, kind='raise', cls='P', per=[], code=int(e.reply.code), marker=mark([e.reply.message]))
             except TransientRelayError as e:
-                return self.log(t='ret', req=req, kind='raise', cls='T', per=[], code=int(e.reply.code), marker=0)
+                return self.log(t='ret', req=req, kind='raise', cls='T', per=[], code=int(e.reply.code), marker=mark([e.reply.message]))
             except BaseException as e:  # noqa
                 if isinstance(e, gevent.GreenletExit):
                     return
@@ -201,12 +214,14 @@ class RelayRun(object):
             if isinstance(res, RelayError):
                 return self.log(t='ret', req=req, kind='returned_error', cls='', per=[], code=0, marker=0)
             if res is None or isinstance(res, Reply):
-                return self.log(t='ret', req=req, kind='whole', cls='', per=['ok'] * nrcpt, code=0, marker=0)
+                return self.log(t='ret', req=req, kind='whole', cls='', per=['ok'] * nrcpt, code=0,
+                                marker=mark([res.message] if res is not None else []))
             per = []
             for r in env.recipients:
                 v = res.get(r)
                 per.append('P' if isinstance(v, PermanentRelayError) else 'T' if isinstance(v, TransientRelayError) else 'ok')
-            self.log(t='ret', req=req, kind='map', cls='', per=per, code=0, marker=0)
+            self.log(t='ret', req=req, kind='map', cls='', per=per, code=0,
+                     marker=mark([(v.reply.message if isinstance(v, RelayError) else getattr(v, 'message', '')) for v in res.values()]))
         g = gevent.spawn(run)
         self.greenlets.append(g)
         return g
